@@ -622,6 +622,17 @@ class StmtMixin(object):
         for f in (lp.modifies if lp else ()):
             ref, fld = self.resolve_field(f, s)
             cur = s.heap[(ref.id, fld)]
+            if isinstance(cur, RefV) and cur.kind == 'iter':
+                nid = self.new_id()
+                nseq, npos = fresh(fld + '.seq', IntSeq), fresh(fld + '.pos')
+                s.heap[(nid, 'seq')] = SeqV(nseq, 'list')
+                s.heap[(nid, 'pos')] = IntV(npos)
+                s.pc += [npos >= 0, npos <= z3.Length(nseq)]
+                s.heap[(ref.id, fld)] = RefV(nid, 'iter')
+                continue
+            if isinstance(cur, RefV) and cur.kind == 'list' and self.spec.hints.get('havoc_list') is not None \
+                    and self.spec.hints['havoc_list'](self, s, cur, fld):
+                continue
             if isinstance(cur, RefV) and cur.kind == 'list':
                 s.heap[(cur.id, 'val')] = self.havoc_value(s.heap[(cur.id, 'val')], fld)
             else:
